@@ -105,6 +105,11 @@ class NpShim:
             if isinstance(v, (list, tuple)):
                 return any(has_sym(e) for e in v)
             return is_sym(v)
+        if isinstance(x, list) and x and all(isinstance(v, (SymInt, int)) and not isinstance(v, bool) for v in x) \
+                and any(isinstance(v, SymInt) for v in x) and not a and not k:
+            if all((isinstance(v, int) and v in (0, 1)) or (isinstance(v, SymInt) and v.bits is not None and len(v.bits) == 1)
+                   for v in x):
+                return core.SymBitArr(x)
         isnum = lambda v: isinstance(v, (SymReal, SymInt, int, float)) and not isinstance(v, bool)
         if isinstance(x, (list, tuple)) and x and all(isinstance(r, (list, tuple)) and r and all(isnum(v) for v in r)
                                                       for r in x) and has_sym(x) and not a and not k:
@@ -118,6 +123,50 @@ class NpShim:
             return OpaqueArray("array")
         import numpy
         return numpy.array(x, *a, **k)
+
+    @staticmethod
+    def median(x, *a, **k):
+        if isinstance(x, (list, tuple)) and any(isinstance(v, SymReal) for v in x) and not a and not k:
+            if len(x) > 6:
+                raise Unsupported("median of more than 6 symbolic values")
+            vals = [SymReal.of(v) for v in x]
+            # insertion sort with symbolic comparisons (each comparison may fork the path)
+            srt = []
+            for v in vals:
+                pos = len(srt)
+                for j, w in enumerate(srt):
+                    if bool(v < w):
+                        pos = j
+                        break
+                srt.insert(pos, v)
+            n = len(srt)
+            return srt[n // 2] if n % 2 else (srt[n // 2 - 1] + srt[n // 2]) / 2
+        import numpy
+        return numpy.median(x, *a, **k)
+
+    @staticmethod
+    def bitwise_xor(x, y):
+        if isinstance(x, core.SymBitArr):
+            return x.xor(y)
+        if isinstance(y, core.SymBitArr):
+            return y.xor(x)
+        import numpy
+        return numpy.bitwise_xor(x, y)
+
+    @staticmethod
+    def array2string(x, *a, **k):
+        if isinstance(x, core.SymBitArr):
+            if a or set(k) - {"separator"} or k.get("separator", " ") != "":
+                raise Unsupported("array2string of a symbolic array with this formatting")
+            if len(x) > 1000:
+                raise Unsupported("array2string summarises long arrays")
+            chars = ["["]
+            for v in x.e:
+                chars.append(core.BitChar(v.bits[0]) if isinstance(v, SymInt) else str(v))
+            chars.append("]")
+            return core.mkstr(chars)
+        import numpy
+        return numpy.array2string(x, *a, **k)
 
     @staticmethod
     def argmin(x, *a, **k):
